@@ -163,6 +163,18 @@ def extract():
             if kw and tm:
                 aliases.append((kw.group(1), toml_unescape(tm.group(1))))
     put('alias_table', aliases or None)
+    # inventory of explicitly partial operations (unwrap / expect / panic! / unreachable! / assert! / todo!) outside
+    # the test modules, per source file: C11 pins the audited inventory, so a new one breaks a proof obligation
+    import glob as _glob
+    inv = []
+    for f in sorted(_glob.glob(os.path.join(REPO, 'src', '**', '*.rs'), recursive=True)):
+        src = open(f).read()
+        m = re.search(r'#\[cfg\(test\)\]\s*(?:pub\s+)?mod\s+\w+\s*\{', src)
+        body = src if not m else src[:m.start()]
+        n = len(re.findall(r'\.unwrap\(\)|\.expect\(|\bpanic!\(|\bunreachable!\(|\bassert(?:_eq|_ne)?!\(|\b(?:unimplemented|todo)!\(', body))
+        if n:
+            inv.append((os.path.relpath(f, REPO), n))
+    put('panic_inventory', inv or None)
     return facts, stale
 
 
@@ -191,6 +203,8 @@ def render(facts):
         emit('default_names', 'list (string * string)', coq_list('(%s, %s)' % (coq_str(a), coq_str(b)) for a, b in facts['default_names']))
     if 'word_keywords' in facts:
         emit('word_keywords', 'list string', coq_list(coq_str(x) for x in facts['word_keywords']))
+    if 'panic_inventory' in facts:
+        emit('panic_inventory', 'list (string * N)', coq_list('(%s, %d%%N)' % (coq_str(f), n) for f, n in facts['panic_inventory']))
     if 'pct_prefix' in facts:
         emit('pct_prefix', 'string', coq_str(facts['pct_prefix']))
     for k in ('sort_mode_tags',):
